@@ -140,6 +140,7 @@ def run(rep):
                     np.savez(os.path.join(td, n + ".npz"), **{k: np.asarray(v) * 0.5 for k, v in repo[n].items()})
                 os.chdir(td)
                 coeffs.COEFF_CACHE.clear()
+                events.append(("cache.clear", {}))
                 rep.validated(2)
                 if fp(coeffs.qshift("qshift_a")) != fp([repo["qshift_a"][k].reshape(-1, 1) for k in ("h0a", "h0b", "g0a", "g0b", "h1a", "h1b", "g1a", "g1b")]) \
                         or fp(coeffs.biort("near_sym_a")) != fp([repo["near_sym_a"][k].reshape(-1, 1) for k in ("h0o", "g0o", "h1o", "g1o")]):
@@ -153,6 +154,8 @@ def run(rep):
     # hit/miss discipline of the cache as the loader model has it: first load of a name misses, later ones hit
     seen = set()
     for ev, f in events:
+        if ev == "cache.clear":
+            seen = set()
         if ev != "coeffs.load":
             continue
         if f["hit"] != (f["table"] in seen):
